@@ -8,14 +8,16 @@ use std::io::{Cursor, Write};
 fn scan_current(file: &[u8], backward: bool) -> String {
     // one file out of three is read through a plain Cursor, the others through a source that hands out
     // at most a few bytes (or a few hundred) per read call, as a pipe or a small BufReader does
+    // (an entry takes at least two bytes: a scan yielding more entries than that is looping)
+    let limit = file.len() / 2 + 16;
     match fnv(file) % 3 {
-        0 => scan_current_from(Cursor::new(file), backward),
-        1 => scan_current_from(crate::c_hist::Counting::short(file.to_vec(), 1 + (file.len() % 11)), backward),
-        _ => scan_current_from(crate::c_hist::Counting::short(file.to_vec(), 300 + (file.len() % 777)), backward),
+        0 => scan_current_from(Cursor::new(file), backward, limit),
+        1 => scan_current_from(crate::c_hist::Counting::short(file.to_vec(), 1 + (file.len() % 11)), backward, limit),
+        _ => scan_current_from(crate::c_hist::Counting::short(file.to_vec(), 300 + (file.len() % 777)), backward, limit),
     }
 }
 
-fn scan_current_from<R: std::io::Read + std::io::Seek>(src: R, backward: bool) -> String {
+fn scan_current_from<R: std::io::Read + std::io::Seek>(src: R, backward: bool, limit: usize) -> String {
     let r = catch(move || -> Result<(u64, u64), String> {
         let reader = Reader::new(src).map_err(|e| err_class(&e))?;
         let mut c = reader.into_cursor().map_err(|e| err_class(&e))?;
@@ -26,7 +28,7 @@ fn scan_current_from<R: std::io::Read + std::io::Seek>(src: R, backward: bool) -
                 Some((k, v)) => items.push((k.to_vec(), v.to_vec())),
                 None => break,
             }
-            if items.len() > 2_000_000 {
+            if items.len() > limit {
                 return Err("runaway".to_string());
             }
         }
@@ -211,6 +213,14 @@ pub fn generate<W: Write>(c: &mut Cases<W>, rng: &mut Rng, thorough: bool, with_
             let cfg = FileCfg { codec, level: if codec == CompressionType::Zstd { level.min(19) } else { level }, ..base.clone() };
             let es: Vec<_> = (0..300u32).map(|i| (i.to_be_bytes().to_vec(), vec![i as u8; (i % 40) as usize])).collect();
             emit(c, &cfg, &es, with_old);
+        }
+    }
+    // compression levels at the top of u32 for every codec (a level is a u32 in the builder, whatever the codec
+    // makes of it)
+    for codec in CODECS {
+        for level in [u32::MAX, 1u32 << 31, (1u32 << 31) + 5] {
+            let es: Vec<_> = (0..30u32).map(|i| (i.to_be_bytes().to_vec(), vec![i as u8; 20])).collect();
+            emit(c, &FileCfg { codec, level, ..base.clone() }, &es, false);
         }
     }
     // the highest levels of zstd (windows of 2^25..2^27 bytes announced in every frame) on a small file, and the
@@ -402,6 +412,23 @@ pub fn generate_c15<W: Write>(c: &mut Cases<W>, rng: &mut Rng, thorough: bool) {
     for bs in [(1usize << 32) + 1500, 1usize << 32, (1usize << 32) + 1024, (1usize << 40) + 2048, usize::MAX] {
         let es: Vec<_> = (0..300u32).map(|i| (i.to_be_bytes().to_vec(), vec![i as u8; 50])).collect();
         emit(c, &FileCfg { block_size: bs, levels: (bs % 3) as u8, ..base.clone() }, &es, false);
+    }
+    // a block size of 8 MiB (and of 1 GiB) with 5 MiB of entries: no data block may be cut (implementation only:
+    // the frames of the file are counted; the model covers the arithmetic for every size)
+    for bs in [8usize << 20, 1usize << 30] {
+        let es: Vec<(Vec<u8>, Vec<u8>)> = (0..5u32 * 1024).map(|i| (i.to_be_bytes().to_vec(), vec![i as u8; 1012])).collect();
+        let cfg = FileCfg { block_size: bs, levels: 0, ..base.clone() };
+        match write_file(&cfg, &es) {
+            WriteOutcome::File(f) => {
+                let n = if f.len() >= 22 { frames(&f, f.len() - 22).len() } else { 0 };
+                c.bump("c15.large_block_files", 1);
+                if n != 2 {
+                    println!("DIRECT fail block size {} with {} bytes of entries: the file holds {} blocks instead of one data block and the index block (a block was cut before reaching the configured size)",
+                             bs, es.len() * 1024, n);
+                }
+            }
+            _ => println!("DIRECT fail a 5 MiB file with block size {} could not be written", bs),
+        }
     }
     // the default block size (the setter is not called) through the three ways to obtain a builder
     for levels in 0..3u8 {
